@@ -8,6 +8,12 @@ Clauses (taken from the property statement):
                       symmetric reflection beyond the ends, H_i rebuilt from get_truncated_response by the
                       recipe in LinearFilterBank.get_truncated_response's docstring
   C02.log_floor       same coefficient when the linear value is below LOG_FLOOR_VALUE (use_log)
+  C02.log_floor_config  "log-floored at LOG_FLOOR_VALUE when use_log": LOG_FLOOR_VALUE is the library's documented,
+                      user-settable pydrobert.speech.config.LOG_FLOOR_VALUE; the floor (filter coefficients AND the
+                      energy coefficient) is the value the configuration holds when compute_full runs, whether it was
+                      assigned before the computer was constructed, after it, or between two compute_full calls on
+                      the same computer (raised and lowered floors, quiet / partly silent signals).  Results with
+                      use_log=False do not depend on it.
   C02.energy_value    index 0 = mean square of the unwindowed frame (sqrt when not use_power), same log floor
   C02.default_frame_length_nonzero_bin   frame_length_ms=None: every rebuilt H_i has a non-zero bin, and
                       every coefficient of a white-noise frame is > 0
@@ -275,6 +281,8 @@ class _Ctx:
         self.n_values = 0
         self.n_energy = 0
         self.pad_checked = 0
+        self.n_cfg_floored = 0  # entries whose expected value is decided by a non-stock LOG_FLOOR_VALUE
+        self.n_cfg_changed = 0  # ... and differs (beyond the tolerance) from what the stock floor would give
 
     def bank(self, spec, rate=RATE):
         k = _bank_key(spec, rate)
@@ -299,10 +307,12 @@ class _Ctx:
             self.windows[k] = _window_values(name, wseed, style, L)
         return self.windows[k]
 
-    def computer(self, case):
+    def computer(self, case, fresh=False):
         from pydrobert.speech.compute import ShortTimeFourierTransformFrameComputer
 
         k = repr([case[f] for f in _CONFIG_FIELDS] + [case.get("rate", RATE)])
+        if fresh:
+            self.computers.pop(k, None)
         if k not in self.computers:
             if len(self.computers) > 64:
                 self.computers.clear()
@@ -353,6 +363,10 @@ def _signal(case):
     kind = case.get("sig", "gauss")
     if kind == "gauss":
         return noise * case.get("amp", 1.0)
+    if kind == "gap":  # a recording with a stretch of digital silence in the middle half
+        x = noise * case.get("amp", 1.0)
+        x[case["N"] // 4 : 3 * case["N"] // 4] = 0.0
+        return x
     n = np.arange(case["N"])
     x = 1e-3 * noise
     if "nyquist" in kind:
@@ -393,31 +407,76 @@ def _check_case(case, ctx):
             if not np.array_equal(xp, mine):
                 raise RuntimeError("harness: explicit reflection disagrees with np.pad 'symmetric'")
 
-    c = ctx.computer(case)
-    xin = x.copy()
-    with warnings.catch_warnings():
-        warnings.simplefilter("ignore")
-        try:
-            got = c.compute_full(xin)
-        except Exception as e:  # noqa
-            if c.started:
+    # "log-floored at LOG_FLOOR_VALUE": cases of the configuration block name the values assigned to
+    # pydrobert.speech.config.LOG_FLOOR_VALUE at run time: "floor_at_construction" (None = the stock value) while the
+    # computer is constructed, then one compute_full per entry of "log_floors" (None = the stock value) on that SAME
+    # computer.  Ordinary cases: one call under whatever the configuration holds.
+    stock = config.LOG_FLOOR_VALUE
+    cfg = "log_floors" in case
+    floors = list(case["log_floors"]) if cfg else [None]
+    try:
+        if cfg:
+            f0 = case.get("floor_at_construction")
+            config.LOG_FLOOR_VALUE = stock if f0 is None else float(f0)
+        c = ctx.computer(case, fresh=cfg)
+        for call, fl in enumerate(floors):
+            floor = stock if fl is None else float(fl)
+            config.LOG_FLOOR_VALUE = floor
+            xin = x.copy()
+            with warnings.catch_warnings():
+                warnings.simplefilter("ignore")
                 try:
-                    c.finalize()
-                except Exception:
-                    pass
-            return [("C02.frame_count", "compute_full raised %s: %s" % (type(e).__name__, e))], info
-    got = np.asarray(got)
+                    got = c.compute_full(xin)
+                except Exception as e:  # noqa
+                    if c.started:
+                        try:
+                            c.finalize()
+                        except Exception:
+                            pass
+                    return fails + [("C02.frame_count", "compute_full raised %s: %s" % (type(e).__name__, e))], info
+            if config.LOG_FLOOR_VALUE != floor:
+                fails.append(("C02.log_floor_config", "compute_full changed config.LOG_FLOOR_VALUE from %r to %r" % (floor, config.LOG_FLOOR_VALUE)))
+                config.LOG_FLOOR_VALUE = floor
+            where = ""
+            if cfg:
+                where = " [call %d of %d on one computer, config.LOG_FLOOR_VALUE = %r assigned %s; constructed under %r]" % (
+                    call + 1,
+                    len(floors),
+                    floor,
+                    ("before construction" if case.get("floor_at_construction") is not None and float(case["floor_at_construction"]) == floor else "after construction")
+                    if call == 0
+                    else "after the previous call",
+                    case.get("floor_at_construction") if case.get("floor_at_construction") is not None else stock,
+                )
+            done = _compare(case, ctx, info, fails, np.asarray(got), want_lin, floor, stock, cfg, where)
+            if not np.array_equal(xin, x):
+                fails.append(("C02.coeff_value", "compute_full modified its input"))
+            if done:
+                break
+    finally:
+        config.LOG_FLOOR_VALUE = stock
+        if cfg:
+            # never leave a computer that saw a non-stock configuration in the cache of the ordinary cases
+            ctx.computers.pop(repr([case[f] for f in _CONFIG_FIELDS] + [case.get("rate", RATE)]), None)
+    return fails, info
+
+
+def _compare(case, ctx, info, fails, got, want_lin, floor, stock, cfg, where):
+    """compare one compute_full result with the definition under log floor `floor`; -> True when the remaining
+    calls of the case should be skipped (shape errors)"""
+    L, s = case["frame_length"], case["frame_shift"]
+    N = case["N"]
+    nf, ncoef = want_lin.shape
     if got.ndim != 2 or got.shape[1] != ncoef:
-        fails.append(("C02.num_coeffs", "result shape %s, expected (*, %d)" % (got.shape, ncoef)))
-        return fails, info
+        fails.append(("C02.num_coeffs", "result shape %s, expected (*, %d)%s" % (got.shape, ncoef, where)))
+        return True
     if got.shape[0] != nf:
         which = "N >= L//2+1" if N >= L // 2 + 1 else "N < L//2+1"
-        fails.append(("C02.frame_count", "%d frames returned, definition gives %d (%s, N=%d L=%d s=%d)" % (got.shape[0], nf, which, N, L, s)))
-        return fails, info
+        fails.append(("C02.frame_count", "%d frames returned, definition gives %d (%s, N=%d L=%d s=%d)%s" % (got.shape[0], nf, which, N, L, s, where)))
+        return True
     if nf == 0:
-        return fails, info
+        return False
 
-    floor = config.LOG_FLOOR_VALUE
     off = int(case["include_energy"])
     got = got.astype(np.float64)
     if case["use_log"]:
@@ -429,8 +488,20 @@ def _check_case(case, ctx):
         ctx.max_logabs = max(ctx.max_logabs, float(np.nanmax(err)))
         ctx.n_floored += int(floored.sum())
         ctx.n_unfloored += int((~floored).sum())
+        if cfg:
+            # entries on which this floor and another value the configuration held during the case (the stock value,
+            # the one at construction, the ones of the other calls) give different expected values
+            others = {stock} | {stock if f is None else float(f) for f in [case.get("floor_at_construction")] + list(case["log_floors"])}
+            changed = np.zeros(want.shape, dtype=bool)
+            for o in others - {floor}:
+                changed |= np.abs(want - np.log(np.maximum(want_lin, o))) > 10 * tol
+            if floor != stock:
+                ctx.n_cfg_floored += int(floored.sum())
+            ctx.n_cfg_changed += int(changed.sum())
+            info["cfg_changed"] = info.get("cfg_changed", 0) + int(changed.sum())
     else:
         floored = np.zeros_like(want_lin, dtype=bool)
+        changed = floored
         want = want_lin
         scale = float(np.max(np.abs(want_lin[:, off:]))) if ncoef > off else 0.0
         err = np.abs(got - want)
@@ -439,35 +510,40 @@ def _check_case(case, ctx):
         nz = np.abs(want) > 1e-6 * max(scale, 1e-300)
         if nz.any():
             ctx.max_rel = max(ctx.max_rel, float(np.nanmax(err[nz] / np.abs(want[nz]))))
+    if not (cfg and case["use_log"]):
+        changed = np.zeros(want.shape, dtype=bool)
     ctx.n_values += int(want[:, off:].size)
     ctx.n_energy += int(want[:, :off].size)
     if bad.any():
         ks, js = np.nonzero(bad)
         k, j = int(ks[0]), int(js[0])
-        if off and j == 0:
-            clause = "C02.energy_value"
-        elif floored[k, j]:
-            clause = "C02.log_floor"
-        else:
-            clause = "C02.coeff_value"
+
+        def _clause(k_, j_):
+            if cfg and case["use_log"] and changed[k_, j_]:
+                return "C02.log_floor_config"  # the run-time value of the configuration decides this entry
+            if off and j_ == 0:
+                return "C02.energy_value"
+            if floored[k_, j_]:
+                return "C02.log_floor"
+            return "C02.coeff_value"
+
+        clause = _clause(k, j)
         energy_ok = (not off) or not bad[:, 0].any()
         fails.append(
             (
                 clause,
-                "frame %d coeff %d: got %.17g want %.17g (pre-log want %.6g, %d of %d entries off; energy column %s)"
-                % (k, j, got[k, j], want[k, j], want_lin[k, j], int(bad.sum()), bad.size, "agrees" if (off and energy_ok) else ("differs" if off else "absent")),
+                "frame %d coeff %d: got %.17g want %.17g (pre-log want %.6g, %d of %d entries off; energy column %s)%s"
+                % (k, j, got[k, j], want[k, j], want_lin[k, j], int(bad.sum()), bad.size, "agrees" if (off and energy_ok) else ("differs" if off else "absent"), where),
             )
         )
         # report the other kinds too, once each
         seen = {clause}
         for k2, j2 in zip(ks, js):
-            cl = "C02.energy_value" if (off and j2 == 0) else ("C02.log_floor" if floored[k2, j2] else "C02.coeff_value")
+            cl = _clause(int(k2), int(j2))
             if cl not in seen:
                 seen.add(cl)
-                fails.append((cl, "frame %d coeff %d: got %.17g want %.17g" % (k2, j2, got[k2, j2], want[k2, j2])))
-    if not np.array_equal(xin, x):
-        fails.append(("C02.coeff_value", "compute_full modified its input"))
-    return fails, info
+                fails.append((cl, "frame %d coeff %d: got %.17g want %.17g%s" % (k2, j2, got[k2, j2], want[k2, j2], where)))
+    return False
 
 
 # ------------------------------------------------------------- default frame length clause
@@ -599,8 +675,61 @@ def _enumerate_edge(tier, seed):
                         }
 
 
+# run-time assignments to pydrobert.speech.config.LOG_FLOOR_VALUE: (value while the computer is constructed, values
+# for the successive compute_full calls on that computer); None = the stock value found at entry
+FLOOR_SCENARIOS = [
+    (None, [1e-2]),  # raised after construction
+    (1e-2, [1e-2]),  # raised before construction, kept
+    (None, [1e-12]),  # lowered after construction (quiet, normalised audio)
+    (1e-12, [1e-12]),
+    (1e3, [None]),  # constructed under a raised floor, the stock value restored before computing
+    (None, [None, 10.0, 1e-30, None]),  # changed between calls on one computer, and back
+    (1e-30, [0.5, 1e-20]),
+]
+
+
+def _enumerate_config(tier, seed):
+    """banks x frame styles x (use_power, include_energy) x LOG_FLOOR_VALUE scenarios x two frame lengths, on a
+    signal whose middle half is digital silence, longer than frame + shift (amplitudes rotated: quiet, unit, all-zero, loud)"""
+    banks = [BANKS_QUICK[0], BANKS_QUICK[9], BANKS_QUICK[10], BANKS_QUICK[1]]
+    amps = [1e-3, 1.0, 0.0, 30.0]
+    j = 0
+    for rep in range(1 if tier == "quick" else 4):
+        for L, pad in ((100, False), (61, True)):
+            for bi, bank in enumerate(banks):
+                for si, (style, kaldi) in enumerate(_STYLES):
+                    for use_power in (True, False):
+                        for energy in (True, False):
+                            for sc, (f0, fls) in enumerate(FLOOR_SCENARIOS):
+                                j += 1
+                                sh = (37, 40, 23)[j % 3]
+                                yield {
+                                    "frame_length": L,
+                                    "frame_shift": sh,
+                                    "dft_size": _dft_size(L, pad),
+                                    "pad": pad,
+                                    "frame_style": style,
+                                    "kaldi_shift": kaldi,
+                                    "bank": bank,
+                                    "window": _WINDOWS[j % len(_WINDOWS)],
+                                    "window_seed": int(seed),
+                                    # one in eight without the log: the floor must then play no part
+                                    "use_log": bool(j % 8 != 5),
+                                    "use_power": use_power,
+                                    "include_energy": energy,
+                                    "N": int(3 * L + sh + (j % 5)),
+                                    "amp": amps[(j + sc + rep) % 4],
+                                    "sig": "gap",
+                                    "floor_at_construction": f0,
+                                    "log_floors": list(fls),
+                                    "seed": int(seed),
+                                }
+
+
 def _enumerate(tier, seed):
     """yield cases; the most discriminating first"""
+    for case in _enumerate_config(tier, seed):
+        yield case
     for case in _enumerate_edge(tier, seed):
         yield case
     banks = list(BANKS_QUICK) + list(BANKS_EXTRA)
@@ -700,6 +829,7 @@ def run(tier: str, seed: int) -> dict:
     n_noframe_short = 0
     n_boundary = 0
     n_edge = n_edge_even = n_edge_nyq = n_edge_dc = 0
+    n_cfg = n_cfg_calls = n_cfg_nontrivial = 0
     stopped_early = False
 
     # the default-frame-length clause first (few, cheap relative to its weight)
@@ -733,13 +863,21 @@ def run(tier: str, seed: int) -> dict:
         # non-trivial: either decides the "no frames" half of the count clause on a non-empty short signal,
         # or produced >= 1 frame with >= 1 non-empty filter (so values were compared)
         nontrivial = (short and N > 0) or (info["frames"] >= 1 and info["nonempty_filters"] >= 1)
+        if "log_floors" in case:
+            # configuration block: >= 1 expected value depends on which of the case's floors is used (use_log), or
+            # (use_log False) values were compared
+            n_cfg += 1
+            n_cfg_calls += len(case["log_floors"])
+            if case["use_log"]:
+                nontrivial = info.get("cfg_changed", 0) > 0
+            n_cfg_nontrivial += int(nontrivial)
         if info["frames"] >= 1:
             n_frames_cases += 1
         if short:
             n_noframe_short += 1
         if N == L // 2 + 1:
             n_boundary += 1
-        if "sig" in case:
+        if "sig" in case and "log_floors" not in case:
             n_edge += 1
             n_edge_even += int(case["dft_size"] % 2 == 0 and info["frames"] >= 1)
             n_edge_nyq += int(info.get("nyquist_bin_filters", 0) > 0)
@@ -760,12 +898,22 @@ def run(tier: str, seed: int) -> dict:
         "cases in which a rebuilt response is non-zero in the Nyquist bin: %d, in the DC bin: %d"
         % (n_edge, n_edge_even, n_edge_nyq, n_edge_dc)
     )
+    col.note(
+        "LOG_FLOOR_VALUE configuration block: %d cases / %d compute_full calls with pydrobert.speech.config.LOG_FLOOR_VALUE assigned at "
+        "run time (before construction, after construction, between calls on one computer; floors 1e-30 .. 1e3 and the stock value), "
+        "%d of them non-trivial; %d expected entries sat below a non-stock floor, %d expected entries differ from what another value "
+        "held by the configuration during the same case (stock / at construction / other calls) would give; the configuration value is restored after every case"
+        % (n_cfg, n_cfg_calls, n_cfg_nontrivial, ctx.n_cfg_floored, ctx.n_cfg_changed)
+    )
     if stopped_early:
         col.note("stopped early (time budget or failure cap); enumeration is ordered most-discriminating first")
     rule = (
         "grid bank x (frame_length, pad) x (frame_style, kaldi_shift) with frame_shift / window / (use_log,use_power,"
         "include_energy) / amplitude rotated deterministically (variants 0-1) then seeded, x 5-7 signal lengths "
-        "(L//2, L//2+1, L, 0/1, one mid, one of about 3L+2s); before it a block of real banks whose top vertex is at the "
+        "(L//2, L//2+1, L, 0/1, one mid, one of about 3L+2s); first of all a block that assigns config.LOG_FLOOR_VALUE at run time "
+        "(4 banks x frame styles x use_power x include_energy x 7 scenarios of (value at construction, values for successive "
+        "compute_full calls on the same computer) x 2 frame lengths, signal with a silent stretch, amplitude 1e-3/1/0/30; "
+        "non-trivial if >= 1 expected value depends on which of the case's floor values is used); then a block of real banks whose top vertex is at the "
         "Nyquist (+ the documented 1 Hz leeway) x rate x (frame_length, pad) x use_power x signal kind (tone at the Nyquist "
         "/ constant + 1e-3 noise, Gaussian); plus default-frame-length configurations. "
         "A case is non-trivial if it is a non-empty signal shorter than L//2+1 (decides 'no frames') or yields >= 1 "
@@ -775,7 +923,9 @@ def run(tier: str, seed: int) -> dict:
         "sampling rate 8000 Hz (edge block: 8000, 11025, 16000, 22050, 44100 Hz); %d banks (Gabor low_hz 0/20, gammatone, triangular real/analytic, Fbank real/analytic; mel, "
         "bark, linear, octave; 2-12 filters); frame lengths %s with DFT sizes %s; shifts {37,40,L//2+3,L,23,7,1,2} (<= L); "
         "8 windows incl. a seeded asymmetric one; all 8 flag triples; Gaussian signals of amplitude {0,1e-3,0.02,1,30,50}, "
-        "N <= about 3L+3s; float64 only; default-frame-length clause on %d bank/rate/pad/EFFECTIVE_SUPPORT_THRESHOLD configurations (8-44.1 kHz, up to 80 filters, thresholds default/0.05-0.6)"
+        "N <= about 3L+3s; config.LOG_FLOOR_VALUE in {stock, 1e-30, 1e-20, 1e-12, 1e-2, 0.5, 10, 1e3} assigned before / after construction / between "
+        "at most 4 calls on one computer (other config values: EFFECTIVE_SUPPORT_THRESHOLD in the default-length clause only; USE_FFTPACK not toggled, scipy absent); "
+        "float64 only; default-frame-length clause on %d bank/rate/pad/EFFECTIVE_SUPPORT_THRESHOLD configurations (8-44.1 kHz, up to 80 filters, thresholds default/0.05-0.6)"
         % (
             len(BANKS_QUICK) + len(BANKS_EXTRA),
             sorted({L for L, _ in _lengths(tier)}),
